@@ -46,7 +46,7 @@ META = {
 }
 
 BIN = os.path.join(vp.TARGET_BIN, "drv-crash")
-WATCHDOG = 40
+WATCHDOG = 40     # only for the set-up of peers in dry runs
 
 SCENARIOS = {
     # name: (victim script, survivor exercise, expected values)
@@ -87,11 +87,17 @@ class Domain:
     """An isolated iceoryx2 domain: root directory + prefix, installed as the global config of every agent."""
 
     def __init__(self, base, tag):
-        self.dir = os.path.join(base, tag)
+        # short paths: unix domain socket files (event concept) live under the root and sun_path is 108 bytes
+        short = tag.lower()
+        for long_, abbr in (("shared_pubsub", "xp"), ("blackboard", "bl"), ("pubsub", "pu"), ("reqres", "re"),
+                            ("event", "ev"), ("node", "no"), ("cleanup", "cl")):
+            short = short.replace(long_, abbr)
+        short = re.sub(r"[^a-z0-9]", "", short)
+        self.dir = os.path.join(base, short)
         os.makedirs(self.dir, exist_ok=True)
-        self.root = os.path.join(self.dir, "root")
+        self.root = os.path.join(self.dir, "r")
         os.makedirs(self.root, exist_ok=True)
-        self.prefix = f"c4{os.getpid() % 100000}{re.sub(r'[^a-z0-9]', '', tag.lower())}_"
+        self.prefix = f"c{os.getpid() % 100000}{short}_"
         self.cfg = os.path.join(self.dir, "iceoryx2.toml")
         with open(self.cfg, "w") as f:
             f.write(f'[global]\nroot-path = "{self.root}"\nprefix = "{self.prefix}"\n[global.node]\n'
@@ -202,9 +208,89 @@ def abstract_steps(dom, recs, known_only=False):
     return out
 
 
-def run_agent(dom, tag, script, syslog=None, kill_at=None, timeout=WATCHDOG):
-    return shimctl.run_to_end(dom.argv, dom.roots, tag, syslog, "s", kill_at, script.replace(";", "\n") + "\n",
-                              timeout=timeout, stderr_path=os.path.join(dom.dir, "stderr.txt"))
+HARD_LIMIT = 600       # seconds; only a process that is neither finished nor provably spinning waits that long
+
+
+def spinning_on(syslog):
+    """If the tail of a process' shim log is one tight retry loop on a single object (the same few calls on the
+    same path, hundreds of times), returns (path, calls in the tail); else None."""
+    try:
+        with open(syslog, "rb") as f:
+            f.seek(0, os.SEEK_END)
+            size = f.tell()
+            f.seek(max(0, size - 120000))
+            tail = f.read().decode(errors="replace").splitlines()[1:]
+    except OSError:
+        return None
+    recs = []
+    for line in tail:
+        try:
+            recs.append(json.loads(line))
+        except ValueError:
+            pass
+    recs = [r for r in recs if r.get("k") == "sys"]
+    if len(recs) < 300:
+        return None
+    paths = {r["path"] for r in recs}
+    calls = {r["call"] for r in recs}
+    if len(paths) == 1 and calls <= {"shm_open", "open", "fstat", "close", "mmap"}:
+        return paths.pop(), len(recs)
+    return None
+
+
+def watch(poll, syslog):
+    """Waits for poll() to become true. A HANG is declared only on proof: two samples, >= 2 s apart, that both show
+    the process inside the same retry loop while its log keeps growing - machine load alone can never produce
+    that. Returns None (finished) or a description of the loop."""
+    import time
+    t0 = time.time()
+    last = None
+    while True:
+        if poll():
+            return None
+        time.sleep(0.05 if time.time() - t0 < 2 else 0.5)
+        el = time.time() - t0
+        if syslog and el > 3:
+            sp = spinning_on(syslog)
+            size = os.path.getsize(syslog) if os.path.exists(syslog) else 0
+            if sp and last and last[0] == sp[0] and size > last[1] and el - last[2] >= 2:
+                return f"retry loop on {os.path.basename(sp[0])} ({size // 250} calls so far)"
+            if sp and (not last or last[0] != sp[0]):
+                last = (sp[0], size, el)
+            elif not sp:
+                last = None
+        if el > HARD_LIMIT:
+            return f"no progress and no exit within {HARD_LIMIT}s"
+
+
+def run_agent(dom, tag, script, syslog=None, kill_at=None, timeout=None):
+    """Free run of one agent. Returns (returncode, answers, hang description or None)."""
+    env = shimctl.shim_env(dom.roots, syslog, tag, "s", kill_at, None, 1, None)
+    errf = open(os.path.join(dom.dir, "stderr.txt"), "ab")
+    outp = os.path.join(dom.dir, f"stdout-{tag}-{kill_at or 0}.txt")
+    try:
+        with open(outp, "wb") as so:
+            p = subprocess.Popen(dom.argv, stdin=subprocess.PIPE, stdout=so, stderr=errf, env=env)
+            try:
+                p.stdin.write((script.replace(";", "\n") + "\n").encode())
+                p.stdin.close()
+            except BrokenPipeError:
+                pass
+            hang = watch(lambda: p.poll() is not None, syslog)
+            if hang:
+                p.kill()
+            p.wait()
+    finally:
+        errf.close()
+    outs = []
+    for line in open(outp, errors="replace"):
+        line = line.strip()
+        if line.startswith("{"):
+            try:
+                outs.append(json.loads(line))
+            except ValueError:
+                pass
+    return p.returncode, outs, hang
 
 
 # ---------------------------------------------------------------------------------------------
@@ -236,23 +322,38 @@ def tags_of(dom, steps):
 
 
 def start_peer(dom, script, tag="P", syslog=None):
+    syslog = syslog or os.path.join(dom.dir, f"peer-{tag}.ndjson")
     p = shimctl.Proc(dom.argv, dom.roots, tag, syslog, "s", stderr_path=os.path.join(dom.dir, "stderr.txt"))
-    answers = []
-    for cmd in script.split(";"):
-        p.send(cmd)
-        answers.append(p.wait_out(WATCHDOG))
+    p.syslog = syslog
+    answers = [ask(p, cmd) for cmd in script.split(";")]
     return p, answers
 
 
 def ask(p, cmd):
+    """Sends one command to an interactive agent; returns its answer, or None if it died; raises shimctl.Hang only
+    on proof (see watch)."""
     p.send(cmd)
-    return p.wait_out(WATCHDOG)
+    got = []
+
+    def poll():
+        try:
+            ev = p.wait(0.05)
+        except shimctl.Hang:
+            return False
+        if ev[0] in ("out", "exit"):
+            got.append(ev)
+            return True
+        return False
+    hang = watch(poll, getattr(p, "syslog", None))
+    if hang:
+        raise shimctl.Hang(hang)
+    return got[0][1] if got[0][0] == "out" else None
 
 
 def extract(ctx, name):
     shared = name in SHARED
     victim = SHARED[name]["victim"] if shared else SCENARIOS[name][0]
-    base = ctx.path("dry", "x")[:-2]
+    base = ctx.path("d", "x")[:-2]
     dom = Domain(base, name)
     drift = []
     peer = None
@@ -440,10 +541,9 @@ def kill_run(ctx, ext, n, second=None, base=None):
         out["answers"] = answers
         out["survivor_rc"] = rc2
         if h2:
-            last = answers[-1]["ev"] if answers else "start"
             cmds = script.split(";")
             cmd = cmds[len(answers)] if len(answers) < len(cmds) else "end"
-            out["hang"] = f"survivor in `{cmd}`"
+            out["hang"] = f"survivor in `{cmd}`: {h2}"
             out["problems"].append(("hang", cmd.split()[0]))
         elif rc2 != 0:
             out["problems"].append(("crash", f"rc={rc2}"))
@@ -508,11 +608,12 @@ def kill_run_shared(ctx, ext, n, base):
         def step(proc, who, cmd):
             try:
                 a = ask(proc, cmd)
-            except shimctl.Hang:
-                a = None
-            if a is None:
-                out["hang"] = f"{who} in `{cmd}`"
+            except shimctl.Hang as h:
+                out["hang"] = f"{who} in `{cmd}`: {h}"
                 out["problems"].append(("hang", f"{who}_{cmd.split()[0]}"))
+                raise StopIteration
+            if a is None:
+                out["problems"].append(("crash", f"{who} died in `{cmd}`"))
                 raise StopIteration
             out["answers"].append(dict(a, who=who))
             if a.get("r") != "Ok":
@@ -540,7 +641,9 @@ def kill_run_shared(ctx, ext, n, base):
                 got.append(a["v"])
             if 11 not in got or any(v not in (5, 11) for v in got):
                 out["problems"].append(("corrupted", f"P_recv={got}"))
-            Q = shimctl.Proc(dom.argv, dom.roots, "Q", None, "s", stderr_path=os.path.join(dom.dir, "stderr.txt"))
+            Q = shimctl.Proc(dom.argv, dom.roots, "Q", os.path.join(dom.dir, "peer-Q.ndjson"), "s",
+                             stderr_path=os.path.join(dom.dir, "stderr.txt"))
+            Q.syslog = os.path.join(dom.dir, "peer-Q.ndjson")
             for cmd in ("node", "svc pubsub", "port sub"):
                 step(Q, "Q", cmd)
             step(P, "P", "send 12")
@@ -597,8 +700,9 @@ def judge(ext, pred, o):
     if hang:
         why = "zero_size_shm" if o.get("zero_size_shm") else "other"
         return [("V1", f"hang:{hang[0][1]}:{why}",
-                 f"survivor hangs in `{hang[0][1]}` (> {WATCHDOG}s after every peer had finished); zero-sized shm objects "
-                 f"left by the victim: {o.get('zero_size_shm')} ({where})")]
+                 f"survivor hangs in `{hang[0][1]}`: {o.get('hang')} (all peers had finished; a hang is declared only when "
+                 f"two samples of the survivor's system-call log show the same retry loop still growing); zero-sized shm "
+                 f"objects left by the victim: {o.get('zero_size_shm')} ({where})")]
     crash = [x for x in probs if x[0] == "crash"]
     if crash:
         return [("V1", f"survivor_crash:{collapse(o.get('uninitialized', []))}@{ph}", f"survivor died {crash[0][1]} ({where})")]
@@ -638,7 +742,7 @@ def run(ctx):
         subprocess.run(["make", "-s", "-C", os.path.dirname(shimctl.SHIM)], check=True)
     quick = ctx.quick
     rng = random.Random(ctx.seed)
-    base = ctx.path("kill", "x")[:-2]
+    base = ctx.path("k", "x")[:-2]
     ctx.assumptions += [
         "crash = SIGKILL immediately before a state-changing libc call on a path of the isolated domain "
         "(crashes between two shared-memory writes inside one step are not enumerated)",
